@@ -340,3 +340,89 @@ Theorem C02_primb_uper_holes_above_255_refuted :
   spec_uper_km holes_l [256; 512] = Some (nbits 8 2 ++ nbits 3 0 ++ nbits 3 4).
 Proof. exact uper_holes_above_255_refuted. Qed.
 Print Assumptions C02_primb_uper_holes_above_255_refuted.
+(* ------------------------------------------------------------------ *)
+(* ENUMERATED / BIT STRING layer (Rt/PrimA.v, Rt/PrimAProofs.v; notes/design/PrimA.md):
+   the C's bytes against X.690 / X.691 / X.696 (the spec_ functions), with witnesses where they differ *)
+From A1 Require Import Rt.Uper Rt.Oer Rt.Ext Rt.PrimA Rt.PrimAProofs.
+
+Theorem C02_prima_enum_uper_is_spec : forall root ext adds z,
+  enum_ok root ext adds -> enum_table root adds = sort_z root ++ adds ->
+  enum_uper root ext adds z = spec_enum_uper root ext adds z.
+Proof. exact enum_uper_is_spec. Qed.
+Print Assumptions C02_prima_enum_uper_is_spec.
+
+Theorem C02_prima_enum_uper_is_spec_refuted :
+  exists root ext adds z, enum_ok root ext adds /\
+    enum_uper root ext adds z <> spec_enum_uper root ext adds z.
+Proof. exact enum_uper_is_spec_refuted. Qed.
+Print Assumptions C02_prima_enum_uper_is_spec_refuted.
+
+Theorem C02_prima_enum_uper_total : forall root ext adds z,
+  enum_ok root ext adds -> In z (root ++ adds) -> exists enc, enum_uper root ext adds z = Some enc.
+Proof. exact enum_uper_total. Qed.
+Print Assumptions C02_prima_enum_uper_total.
+
+Theorem C02_prima_enum_oer_format : forall z, fits_long z = true ->
+  (0 <= z <= 127 -> enum_oer z = [z]) /\
+  (~ 0 <= z <= 127 ->
+   exists body, enum_oer z = (128 + zlen body) :: body /\ 1 <= zlen body <= 8 /\
+                twos_value body = z /\ minimal_twos body = true /\ bytes_ok body).
+Proof. exact enum_oer_format. Qed.
+Print Assumptions C02_prima_enum_oer_format.
+
+Theorem C02_prima_bits_contents_format : forall bs,
+  exists body, bits_contents bs = unused_bits (zlen bs) :: body /\
+    0 <= unused_bits (zlen bs) <= 7 /\ zlen body = (zlen bs + 7) / 8 /\
+    bytes_bits body = bs ++ repeat false (Z.to_nat (unused_bits (zlen bs))) /\ bytes_ok body.
+Proof. exact bits_contents_format. Qed.
+Print Assumptions C02_prima_bits_contents_format.
+
+Theorem C02_prima_bits_der_partial : forall named bs,
+  (named = true -> strip_tz bs = bs) -> bits_contents bs = spec_bits_contents named bs.
+Proof. exact bits_der_partial. Qed.
+Print Assumptions C02_prima_bits_der_partial.
+
+Theorem C02_prima_bits_der_named_refuted : exists bs, bits_contents bs <> spec_bits_contents true bs.
+Proof. exact bits_der_named_refuted. Qed.
+Print Assumptions C02_prima_bits_der_named_refuted.
+
+(* canonical form of a NamedBitList value: nothing left to remove, a prefix of the value *)
+Theorem C02_prima_strip_canonical : forall bs,
+  (strip_tz bs = [] \/ last (strip_tz bs) false = true) /\ strip_tz (strip_tz bs) = strip_tz bs /\
+  exists k, bs = strip_tz bs ++ repeat false k.
+Proof. intros bs. split; [apply strip_tz_last|]. split; [apply strip_tz_idem|apply strip_tz_decomp]. Qed.
+Print Assumptions C02_prima_strip_canonical.
+
+Theorem C02_prima_bits_uper_named_is_spec : forall s bs, scon_ok s ->
+  in_scon s (zlen (bits_sent s bs)) = true ->
+  (match s with SCon lo hi _ => size_constrained hi = false -> lo <= zlen (strip_tz bs) end) ->
+  bits_uper s bs = spec_bits_uper s true bs.
+Proof. exact bits_uper_named_is_spec. Qed.
+Print Assumptions C02_prima_bits_uper_named_is_spec.
+
+Theorem C02_prima_bits_uper_named_is_spec_refuted :
+  exists s bs, scon_ok s /\ bits_uper s bs <> spec_bits_uper s true bs.
+Proof. exact bits_uper_named_is_spec_refuted. Qed.
+Print Assumptions C02_prima_bits_uper_named_is_spec_refuted.
+
+Theorem C02_prima_bits_uper_plain_is_spec : forall s bs, scon_ok s ->
+  strip_tz bs = bs -> in_scon s (zlen bs) = true ->
+  bits_uper s bs = spec_bits_uper s false bs.
+Proof. exact bits_uper_plain_is_spec. Qed.
+Print Assumptions C02_prima_bits_uper_plain_is_spec.
+
+Theorem C02_prima_bits_uper_plain_is_spec_refuted :
+  exists s bs, scon_ok s /\ in_scon s (zlen bs) = true /\ bits_uper s bs <> spec_bits_uper s false bs.
+Proof. exact bits_uper_plain_is_spec_refuted. Qed.
+Print Assumptions C02_prima_bits_uper_plain_is_spec_refuted.
+
+Theorem C02_prima_bits_uper_ext_below_lb_refuted :
+  exists s bs, scon_ok s /\ strip_tz bs = bs /\ bits_uper s bs <> spec_bits_uper s false bs.
+Proof. exact bits_uper_ext_below_lb_refuted. Qed.
+Print Assumptions C02_prima_bits_uper_ext_below_lb_refuted.
+
+Theorem C02_prima_bits_oer_is_spec : forall s bs,
+  (match oer_fixed_size s with Some n => zlen bs = n | None => True end) ->
+  bits_oer s bs = spec_bits_oer s bs.
+Proof. exact bits_oer_is_spec. Qed.
+Print Assumptions C02_prima_bits_oer_is_spec.
